@@ -52,5 +52,4 @@ for sid in ids:
     print(sid, "CAUGHT" if entry["caught"] else "MISSED", json.dumps(entry["checks"])[:300], flush=True)
     with open(resp, "w") as f:
         json.dump(results, f, indent=1, sort_keys=True)
-# restore translator outputs to /repo's state
-subprocess.run([os.path.join(ROOT, "check"), "--setup"], cwd=ROOT, stdout=subprocess.DEVNULL, stderr=subprocess.DEVNULL)
+# translator outputs (lean/Poly/Generated) are regenerated from /repo by the next ordinary run of each check
